@@ -105,6 +105,18 @@ CHECKS = {
         "line (layouts are C03's job).",
         "DESIGN.md section 4, C10",
     ),
+    "C07": (
+        "Hypothesis generation of class models (signatures) x call shapes x placements + bounded-exhaustive stratum (all signatures "
+        "<=3 params x all shapes x depth 0-2); oracle = python's own binder (inspect.Signature.bind + apply_defaults) builds the "
+        "expected full-positional AST, compared by ast.dump",
+        "For generated signatures and every call shape python accepts (plus missing-required), at nesting depth 0-3 through typed "
+        "chains, collection operators, dictionary fields and re-used lambda parameter names, the emitted lambda must equal the "
+        "AST obtained by binding the written arguments with inspect.Signature.bind and filling defaults as ast.Constant; bind "
+        "raising TypeError <=> ValueError from the library; operator calls must keep their written arguments.",
+        "Models have 3 classes + 1 registered function; defaults are str/int/float/bool; unknown keywords and surplus positionals "
+        "are outside the statement.",
+        "DESIGN.md section 4, C07",
+    ),
 }
 
 NOT_YET = "check not built yet in this round (work in progress; see DESIGN.md section 4 for the planned generator/oracle)"
